@@ -11,7 +11,7 @@ FUNCTIONS = ["TypeSubstitutes::{new, insert, parse_path_substitution, parse_path
 MODELS = c01.MODELS + ["syn::Path / syn::Type structured model with in-place mutation through &mut iterators (A-syn)"]
 ASSUMPTIONS = ["differential oracle independent of the substitution code: the registry is generated once without and once with the rule(s); the expected output is the unsubstituted output with the item removed and every reference rewritten by a Python implementation of the statement (pass-through / declared arguments with source parameter names replaced at any depth, every other token unchanged)",
                "rules: over the generic and non-generic item paths of the corpus registries; use sites are all positions the corpus uses those types at (direct fields, Vec/Option/tuple/array nesting, arguments of other generic items, resolved type paths)"]
-BOUNDS = {"quick": {"rules per run": "1-2", "rule shapes": 22, "registries": "generics, modules, enum, reach, cow_generic, mybox"}, "thorough": {"rules per run": "1-2, every substitutable path"}}
+BOUNDS = {"quick": {"rules per run": "1-2", "rule shapes": 22, "registries": "generics, modules, enum, reach, cow_generic, mybox"}, "thorough": {"rules per run": "1-2", "rule shapes": "7 generated shapes for every item path of every corpus registry with unique paths, plus a pair of rules for neighbouring paths", "registries": "all corpus registries with unique paths"}}
 OUTSIDE = ["qualified-self, lifetimes/const arguments other than their documented rejection (C16)"]
 GLOBAL_WITNESSES = ("Ok",)
 G = "replay::corpus::generics::"
@@ -163,8 +163,17 @@ def generated_rules(reg):
 def families(eng, tier, seed):
     C = corpus(); fams = []
     if tier == "thorough":
-        for n in ("generics", "modules", "reach", "calls", "cow_generic", "mybox", "enum", "compact_generic", "phantom", "tree", "bits_generic", "assoc_noskip"):
-            for k, r in enumerate(generated_rules(C[n])): fams.append(make_family("gen-rule-%s-%d" % (n, k), C[n], [r]))
+        for n in C:
+            if n in ("versions", "versions_hdr", "versions_hdr_mirror", "assoc_skip", "assoc_twins", "empty_enum", "duration", "phantom_field"): continue     # same-path registries fail generation before any rule applies
+            gr = generated_rules(C[n])
+            for k, r in enumerate(gr): fams.append(make_family("gen-rule-%s-%d" % (n, k), C[n], [r]))
+            # pairs of rules over different source paths (one rule must not disturb the other)
+            byp = {}
+            for r in gr: byp.setdefault("::".join(src_params(r[0])[0]), []).append(r)
+            keys = list(byp)
+            for a in range(len(keys) - 1):
+                ra = byp[keys[a]][min(1, len(byp[keys[a]]) - 1)]; rb = byp[keys[a + 1]][-1]
+                fams.append(make_family("gen-rules-%s-%d+%d" % (n, a, a + 1), C[n], [ra, rb]))
     for k, (s, t) in enumerate(RULES): fams.append(make_family("rule-generics-%d" % k, C["generics"], [(s, t)]))
     # custom alloc crate path: resolved arguments that mention Vec/String/Box must be rendered with it
     ALLOC = Settings(["compact_path ::parity_scale_codec::Compact", "bits_path ::scale_bits::DecodedBits", "codec_attrs", "alloc ::my_alloc", "mod_name rt"])
